@@ -661,7 +661,7 @@ class Ctx:
         syntax_nodes is insert-only; GraphNodeRef's field is private (checked as E9 W2 / E5)"""
         def f():
             ok = True
-            for fn in self.prog.fns.values():
+            for fn in self.prog.shape_fns():
                 if fn.body is None:
                     continue
                 tr = None
@@ -678,7 +678,7 @@ class Ctx:
         def f():
             ok = True
             adds = 0
-            for fn in self.prog.fns.values():
+            for fn in self.prog.shape_fns():
                 if fn.body is None:
                     continue
                 tr = None
@@ -712,7 +712,7 @@ class Ctx:
         and in Parser::new"""
         def f():
             writers = set()
-            for fn in self.prog.fns.values():
+            for fn in self.prog.shape_fns():
                 if fn.body is None:
                     continue
                 for b, idx, st in fn.body.field_writes():
@@ -807,7 +807,7 @@ class Ctx:
         call other than Deref/DerefMut/drop glue"""
         def f():
             n = 0
-            for fn in self.prog.fns.values():
+            for fn in self.prog.shape_fns():
                 if fn.body is None:
                     continue
                 body = fn.body
@@ -866,7 +866,7 @@ def run_e1a(prog, rep, known_rules=None, fn_filter=None):
     if fn_filter is not None:
         sites = [s for s in sites if fn_filter(s.fn)]
     # a closure whose body was spliced into its parent (try_for_each desugaring) is audited there, in its context
-    spliced = {h for f in prog.fns.values() for h in (f.inlined or []) if h in prog.fns and prog.fns[h].kind == "closure"}
+    spliced = {h for f in prog.shape_fns() for h in (f.inlined or []) if h in prog.fns and prog.fns[h].kind == "closure"}
     sites = [s for s in sites if s.fn.id not in spliced]
     per_rule = {}
     for s in sites:
